@@ -103,7 +103,17 @@ func (m *Machine) store(fr *frame, T types.Type, addr Value, v Value) {
 		if p == nil {
 			m.rtPanic(fr, "invalid memory address or nil pointer dereference")
 		}
-		m.storeInto(p, m.copyVal(v))
+		func() {
+			defer func() {
+				if r := recover(); r != nil {
+					if ee, ok := r.(engineErr); ok {
+						panic(engineErr{ee.msg + " at " + m.where(fr)})
+					}
+					panic(r)
+				}
+			}()
+			m.storeInto(p, m.copyVal(v))
+		}()
 		return
 	case BytePtr:
 		if p.obj == nil {
